@@ -22,7 +22,7 @@ import vlib
 ID = "C11"
 CLAIM = True
 MANIFEST_ENTRY = {
-    "text": "Coq theorems (all closed under the global context) over executable models of lib/allocators: for ALL call histories with sizes 0..2^64-1 "
+    "text": "proof, partial. THEOREMS (all closed under the global context) over executable models of lib/allocators: for ALL call histories with sizes 0..2^64-1 "
             "the arena, stack, pool and heap allocators never trip a check on valid calls (arena, heap) and keep the live blocks in bounds, aligned and "
             "pairwise disjoint; stack LIFO restores its offsets; the pool's free list and live chunks partition the buffer; the heap keeps tiling, exact bins, "
             "live = used chunks, no two adjacent free chunks, reports invalid frees, and is the fresh heap again once everything is released; realloc keeps "
@@ -30,13 +30,32 @@ MANIFEST_ENTRY = {
             "transferred to the memory-level model (header words, prev_adj/next/prev links, bins, NODE_COOKIE marks) by a proved refinement: every operation "
             "of the memory-level model simulates the abstract one (C11_heap_refinement). The derived operations of Allocator_implement_interface "
             "(alloc0/realloc0/x*/span*/new/delete) are modelled generically over the primitives with theorems that they are the stated primitive calls; "
-            "AlignedAllocator's alignment arithmetic is proved. Two open findings are refuted/partial pairs: span count*#T and AlignedAllocator's request "
-            "size wrap mod 2^64. Models are tied to the code by regenerated constants and line-by-line correspondence of offsets and internal state.",
+            "AlignedAllocator's alignment arithmetic is proved. Three open findings are refuted/partial pairs: span count*#T wrap, AlignedAllocator's request "
+            "size wrap, and stale NODE_COOKIEs after heap deallocall (the 'reports a double free' clause is FALSE of the code for pointers of a previous "
+            "generation; proved only for pointers to headers of free chunks). TESTING ONLY (shadow-map oracle on the real allocators): heap/stack/pool payload "
+            "contents at the memory level, AlignedAllocator over whole histories, the derived operations on the real code, release builds. NOT COVERED: "
+            "GeneralAllocator (libc) and GCAllocator (property C10), both named in the statement. Models are tied to the code by regenerated constants and "
+            "line-by-line correspondence of offsets and of the complete internal state.",
     "note": "trusted: Coq 8.16.1 kernel; the hand-written models (tied to /repo by regenerated constants and by differential correspondence of offsets and of the "
             "complete internal state after every operation, which is testing, not proof); extraction with ExtrOcamlBasic; OCaml/Nelua/Python harness glue. "
             "Payload bytes are byte functions separate from the header memory; GeneralAllocator (libc) and GCAllocator (C10) are outside; release builds are not exercised.",
     "technique": "machine-checked proof in Coq over executable models (incl. a proved refinement memory-level -> abstract heap) + extracted-model/implementation "
                  "correspondence on interactive histories + shadow-map property oracle",
+}
+THEOREM_CLASSES = {
+    "C11_arena_safe": "main", "C11_arena_realloc_preserves": "main",
+    "C11_arena_alloc0_zeroes": "definitional", "C11_arena_realloc0_zeroes": "definitional",
+    "C11_stack_safe": "main", "C11_stack_total": "main", "C11_stack_alloc_dealloc_restores": "corollary",
+    "C11_pool_safe": "main", "C11_pool_total": "main",
+    "C11_heap_safe": "main", "C11_heap_no_adjacent_free": "main", "C11_heap_release_all_restores": "main",
+    "C11_heap_refinement": "main", "C11_heap_mem_safe": "corollary",
+    "C11_heap_mem_invalid_free_reported_refuted": "refutation", "C11_heap_mem_invalid_free_reported_partial": "main",
+    "C11_heap_realloc_preserves": "main", "C11_heap_alloc0_zeroes": "definitional", "C11_heap_realloc0_zeroes": "definitional",
+    "C11_iface_alloc0": "definitional", "C11_iface_xalloc": "definitional", "C11_iface_xrealloc": "definitional",
+    "C11_iface_realloc0": "definitional", "C11_iface_spanalloc": "main", "C11_iface_spanrealloc": "definitional",
+    "C11_iface_new": "definitional",
+    "C11_arena_span_in_refuted": "refutation", "C11_arena_span_in_partial": "main",
+    "C11_aligned_arith": "main", "C11_aligned_alloc_spec": "main", "C11_aligned_fits_refuted": "refutation",
 }
 ALLOWED_AXIOMS = []
 TRUSTED_BASE = [
@@ -305,13 +324,16 @@ class Shadow:
             if op.startswith("span"):
                 n = (n * 4) % M64
             old = self.live.get(h)
+            if op.startswith("span") and old is not None and old["size"] // 4 == 0 and n > 0:
+                # Allocator:spanrealloc on an empty span is a fresh spanalloc: the (zero-size) old block is dropped
+                self.live.pop(h, None)
+                old = None
             if n == 0:
                 self.live.pop(h, None)
                 if ptr is not None and old is not None:
                     self.bad("realloc-zero", "realloc to 0 returned a pointer")
-                elif ptr is not None:       # realloc(nil,0) = alloc(0): arena returns a zero-size block
+                elif ptr is not None:       # realloc(nil,0) = alloc(0): AlignedAllocator returns a zero-size block; both drivers drop the handle
                     self.check_new(h, ptr, 0)
-                    self.live[h] = {"off": ptr, "size": 0, "seed": None, "plen": 0}
             elif ptr is None or (op.startswith("span") and old is not None and ("n%d" % (n // 4)) not in rw):
                 if expect == "nonnil":
                     self.bad("lost-memory", "%s(%d) fails" % (op, n))
@@ -727,6 +749,9 @@ REGRESSIONS = [
 # defects of the unchanged tree that are still open: replayed every run, reported under their exact key
 # (listed in known_findings/C11.json; proposed repair in harness/C11/proposed_repairs/)
 KNOWN_DEFECTS = [
+    ("heap(1024): alloc 100; alloc 50; deallocall; alloc 400; rawdealloc 184; alloc 8", "h0",
+     ["alloc 0 100", "alloc 1 50", "deallocall", "alloc 2 400", "rawdealloc 184", "alloc 3 8"],
+     "HeapAllocatorT:deallocall leaves the NODE_COOKIE marks of the old chunks in the buffer: the stale pointer of the previous generation passes the cookie test, dealloc links garbage into a bin and the next alloc overlaps a live block"),
     ("aligned(arena(1024,8),64): alloc 18446744073709551608", "g0", ["alloc 0 18446744073709551608"],
      "AlignedAllocator:alloc computes size + #pointer + ALIGN - 1 without an overflow test: alloc(2^64-8) asks the wrapped allocator for 63 bytes and returns a non-nil pointer"),
     ("arena(64,8): spanalloc uint32 x 4611686018427387905", "a0", ["spanalloc 0 4611686018427387905"],
@@ -1020,8 +1045,8 @@ def correspond(ctx):
 
 UNPROVED = [
     "memory level: 'the allocator never writes inside a live payload' is not a separate theorem (the refinement constrains header words; payload bytes live in a separate byte function)",
-    "memory level: dealloc/realloc of a pointer that is NOT a chunk header (stale pointer into a payload, foreign pointer) - the cookie test reads client-controlled bytes there; proved only at the abstract level and, at the memory level, for headers of free chunks",
-    "'a valid history never trips a run-time check' is proved for arena and heap (both models) only; for stack/pool the theorems cover the runs that do not abort",
+    "the 'reports a double free' clause: false of the code after deallocall (C11_heap_mem_invalid_free_reported_refuted, known finding); proved at the memory level only for pointers to headers of free chunks (_partial); a global 'cookies sit only at used headers' invariant for histories without deallocall is not proved",
+    "pool: pool_good has no alignment clause beyond 'is a chunk start' (the alignment of T inside the chunk union is the compiler's layout, property C03)",
     "AlignedAllocator: alignment arithmetic and single-step alloc spec are proved, a history-level safety theorem (headers of live aligned blocks are never overwritten) is not; its default realloc's memory.move is not a contents theorem",
     "stack/pool: realloc never moves a block (it returns p or nil), contents preservation is therefore not stated separately",
     "GeneralAllocator (libc) and GCAllocator (C10) are outside the Coq models; release builds (checks compiled out) are not exercised",
